@@ -709,6 +709,24 @@ class Exec:
             if not ext and '.' in base:
                 ext = base.rsplit('.', 1)[1]
             by_ext.setdefault(ext, []).append(name)
+        # the keyword-only listings: ext=None means no filter, every str (the empty one too) names exactly one extension
+        for ext in list(by_ext) + ['', 'no_such_ext']:
+            want_names = by_ext.get(ext, [])
+            try:
+                infos = list(obj.fileinfos(ext=ext))
+                fold = list(obj.folders(ext=ext))
+            except Exception as exc:
+                self.fail(f'{who}: fileinfos/folders(ext={ext!r}) raised {type(exc).__name__}: {exc}', key='listing-raises')
+            self.run.count('keyword_listings_compared')
+            if sorted(i.filename for i in infos) != sorted(want_names):
+                self.fail(f'{who}: fileinfos(ext={ext!r}) lists {sorted(i.filename for i in infos)[:6]}, the model has {sorted(want_names)[:6]}',
+                          key='listing-mismatch')
+            want_fold = sorted({obj[n].dir for n in want_names})
+            if sorted(fold) != want_fold:
+                self.fail(f'{who}: folders(ext={ext!r}) lists {sorted(fold)[:6]}, the files with that extension are in {want_fold[:6]}',
+                          key='listing-mismatch')
+        if sorted(i.filename for i in obj.fileinfos()) != sorted(model) or sorted(obj.folders()) != sorted({obj[n].dir for n in model}):
+            self.fail(f'{who}: fileinfos() / folders() without a filter do not list every file / folder once', key='listing-mismatch')
         for ext, want_names in by_ext.items():
             if not ext:
                 continue  # filenames(ext='') means "no filter"
@@ -991,4 +1009,4 @@ def replay(run, data) -> None:
 
 
 # (kept at the end of the file so that the text above stays the description the check was first built to)
-RULE += ' ' + "Later additions: dir_data_limit 65535 / 65536 / 100000, also set through the dir_limit attribute of the open archive; dotted folder and file names; other spellings of the folder (trailing '/', './', doubled and backward slashes) in every name form; forged overwrites with equal CRC32 and equal length. A name with one letter beyond ASCII in one of its three parts is either refused with ValueError leaving the archive as it was, or has to be listed under exactly that name after reopening. Folders on disk (files at the top and in sub-folders) are added with add_folder, with and without a prefix, and take part in the history like any other file."
+RULE += ' ' + "Later additions: dir_data_limit 65535 / 65536 / 100000, also set through the dir_limit attribute of the open archive; dotted folder and file names; other spellings of the folder (trailing '/', './', doubled and backward slashes) in every name form; forged overwrites with equal CRC32 and equal length. A name with one letter beyond ASCII in one of its three parts is either refused with ValueError leaving the archive as it was, or has to be listed under exactly that name after reopening. Folders on disk (files at the top and in sub-folders) are added with add_folder, with and without a prefix, and take part in the history like any other file. The keyword listings fileinfos(ext=) and folders(ext=) are compared with the model for every extension, the empty one and an unused one included."
